@@ -37,6 +37,8 @@ type c10Op struct {
 	Bg    bool   `json:"bg,omitempty"`   // rh: foreign (background) context
 	Async bool   `json:"async,omitempty"`
 	Tag   string `json:"tag,omitempty"` // stamp: name
+	Sub   int    `json:"sub,omitempty"`  // add: 0 own subscriber object, k>0 the shared subscriber object k
+	SlowC int    `json:"slowc,omitempty"` // add: the publisher's Close() takes this many ms
 }
 
 type c10Park struct {
@@ -68,7 +70,27 @@ type c10Scenario struct {
 
 // ---- scripted subscriber: one per handler
 
+// one Subscriber OBJECT; handlers that share it get facades (c10Sub) of the same object: Close() of any of
+// them closes the subscriptions of all of them, as with one shared Subscriber instance
+type c10SubObj struct {
+	rt   *hookrt.Runtime
+	id   int
+	mu   sync.Mutex
+	subs []*c10Sub
+}
+
+func (o *c10SubObj) closeAll() {
+	o.rt.Stamp("api.sub.close_called", fmt.Sprint(o.id))
+	o.mu.Lock()
+	subs := append([]*c10Sub(nil), o.subs...)
+	o.mu.Unlock()
+	for _, s := range subs {
+		s.end("close")
+	}
+}
+
 type c10Sub struct {
+	obj   *c10SubObj
 	rt    *hookrt.Runtime
 	h     int
 	hon   bool
@@ -110,9 +132,6 @@ func (s *c10Sub) Subscribe(ctx context.Context, topic string) (<-chan *message.M
 func (s *c10Sub) end(kind string) {
 	s.mu.Lock()
 	defer s.mu.Unlock()
-	if kind == "close" {
-		s.rt.Stamp("api.sub.close_called", fmt.Sprint(s.h))
-	}
 	if !s.open {
 		return
 	}
@@ -122,7 +141,7 @@ func (s *c10Sub) end(kind string) {
 	close(s.ch)
 }
 
-func (s *c10Sub) Close() error { s.end("close"); return nil }
+func (s *c10Sub) Close() error { s.obj.closeAll(); return nil }
 
 // emit hands msg to the subscription (atomically with the "open" state); false if closed / not taken
 func (s *c10Sub) emit(msg *message.Message, d time.Duration) bool {
@@ -148,6 +167,7 @@ type c10Pub struct {
 	mu     sync.Mutex
 	closed bool
 	closes int
+	slowMs int
 }
 
 func (p *c10Pub) Publish(topic string, msgs ...*message.Message) error {
@@ -167,10 +187,14 @@ func (p *c10Pub) Publish(topic string, msgs ...*message.Message) error {
 
 func (p *c10Pub) Close() error {
 	p.mu.Lock()
-	defer p.mu.Unlock()
 	p.rt.Stamp("api.pubclose", fmt.Sprint(p.id))
 	p.closed = true
 	p.closes++
+	slow := p.slowMs
+	p.mu.Unlock()
+	if slow > 0 {
+		time.Sleep(time.Duration(slow) * time.Millisecond) // a publisher whose Close takes a while
+	}
 	return nil
 }
 
@@ -215,6 +239,9 @@ func c10Run(rt *hookrt.Runtime, sc *c10Scenario, seed int64) {
 	var mu sync.Mutex
 	note := func(s string) { mu.Lock(); sc.Notes = append(sc.Notes, s); mu.Unlock() }
 	var subs []*c10Sub
+	var names []string
+	var addSpecs []c10Op
+	subObjs := map[int]*c10SubObj{}
 	var handlers []*message.Handler
 	pubs := map[int]*c10Pub{}
 	nextTid := 0
@@ -253,33 +280,86 @@ func c10Run(rt *hookrt.Runtime, sc *c10Scenario, seed int64) {
 	for _, op := range sc.Ops {
 		op := op
 		switch op.K {
-		case "add":
+		case "add", "readd":
 			h := len(subs)
-			s := &c10Sub{rt: rt, h: h, hon: op.Hon, fail: op.Fail}
-			subs = append(subs, s)
 			name := hname(h)
-			var hd *message.Handler
-			if op.Pub < 0 {
-				hd = router.AddNoPublisherHandler(name, "topic-"+name, s, func(msg *message.Message) error {
-					rt.Stamp("api.processed", fmt.Sprint(h), "true", "-1")
-					slowWait(msg)
-					return nil
-				})
-			} else {
-				p := pubs[op.Pub]
-				if p == nil {
-					p = &c10Pub{rt: rt, id: op.Pub}
-					pubs[op.Pub] = p
+			spec := op
+			if op.K == "readd" {
+				// a new handler under the name of handler op.H (which was stopped): AddHandler panics with
+				// DuplicateHandlerNameError until the router has released the name - retry until accepted
+				if op.H >= len(names) {
+					continue
 				}
-				hd = router.AddHandler(name, "topic-"+name, s, "out", p, func(msg *message.Message) ([]*message.Message, error) {
-					slowWait(msg)
-					out := message.NewMessage(msg.UUID+"-out", nil)
-					out.Metadata.Set("h", fmt.Sprint(h))
-					return []*message.Message{out}, nil
-				})
+				name = names[op.H]
+				spec = addSpecs[op.H]
 			}
+			obj := subObjs[spec.Sub]
+			if spec.Sub == 0 || obj == nil {
+				obj = &c10SubObj{rt: rt, id: 1000 + h}
+				if spec.Sub > 0 {
+					obj.id = spec.Sub
+					subObjs[spec.Sub] = obj
+				}
+			}
+			s := &c10Sub{obj: obj, rt: rt, h: h, hon: spec.Hon, fail: spec.Fail}
+			obj.mu.Lock()
+			obj.subs = append(obj.subs, s)
+			obj.mu.Unlock()
+			var hd *message.Handler
+			tryAdd := func() (dup bool) {
+				defer func() {
+					if r := recover(); r != nil {
+						if _, ok := r.(message.DuplicateHandlerNameError); ok {
+							dup = true
+							return
+						}
+						panic(r)
+					}
+				}()
+				if spec.Pub < 0 {
+					hd = router.AddNoPublisherHandler(name, "topic-"+name, s, func(msg *message.Message) error {
+						rt.Stamp("api.processed", fmt.Sprint(h), "true", "-1")
+						slowWait(msg)
+						return nil
+					})
+				} else {
+					p := pubs[spec.Pub]
+					if p == nil {
+						p = &c10Pub{rt: rt, id: spec.Pub, slowMs: spec.SlowC}
+						pubs[spec.Pub] = p
+					}
+					hd = router.AddHandler(name, "topic-"+name, s, "out", p, func(msg *message.Message) ([]*message.Message, error) {
+						slowWait(msg)
+						out := message.NewMessage(msg.UUID+"-out", nil)
+						out.Metadata.Set("h", fmt.Sprint(h))
+						return []*message.Message{out}, nil
+					})
+				}
+				return false
+			}
+			accepted := false
+			for deadline := time.Now().Add(c10ObsWait); ; {
+				if !tryAdd() {
+					accepted = true
+					break
+				}
+				if op.K == "add" || time.Now().After(deadline) {
+					break
+				}
+				time.Sleep(200 * time.Microsecond)
+			}
+			if !accepted {
+				note("AddHandler: name " + name + " not accepted")
+				obj.mu.Lock()
+				obj.subs = obj.subs[:len(obj.subs)-1]
+				obj.mu.Unlock()
+				continue
+			}
+			subs = append(subs, s)
+			names = append(names, name)
+			addSpecs = append(addSpecs, spec)
 			handlers = append(handlers, hd)
-			rt.Stamp("api.add.ret", fmt.Sprint(h), fmt.Sprint(op.Pub), fmt.Sprint(op.Hon))
+			rt.Stamp("api.add.ret", fmt.Sprint(h), fmt.Sprint(spec.Pub), fmt.Sprint(spec.Hon), fmt.Sprint(obj.id))
 		case "add_dup":
 			// glue: a second handler with an existing name must panic with DuplicateHandlerNameError
 			func() {
